@@ -218,13 +218,34 @@ func (m *envModel) mapUses(mv ssa.Value, base ssa.Value, field int, seen map[ssa
 }
 
 // helperUse summarises what a function of the analysed package does with the table passed to it as an argument.
+// helperUseOfParam: what function callee does with its parameter i (a table): ok=false when the table can get out.
+func (m *envModel) helperUseOfParam(callee *ssa.Function, i int) (what string, write bool, ok bool) {
+	if callee == nil || len(callee.Blocks) == 0 || i >= len(callee.Params) {
+		return "", false, false
+	}
+	fake := &ssa.Call{}
+	fake.Call.Value = callee
+	for j := range callee.Params {
+		if j == i {
+			fake.Call.Args = append(fake.Call.Args, callee.Params[i]) // stands for "the argument": compared by identity below
+		} else {
+			fake.Call.Args = append(fake.Call.Args, nil)
+		}
+	}
+	return m.helperUseArgs(callee, fake.Call.Args, callee.Params[i], 0)
+}
+
 func (m *envModel) helperUse(c *ssa.Call, mv ssa.Value, depth int) (what string, write bool, ok bool) {
 	callee := staticCallee(c)
 	if callee == nil || len(callee.Blocks) == 0 || callee.Pkg != c.Parent().Pkg || depth > 2 {
 		return "", false, false
 	}
+	return m.helperUseArgs(callee, c.Call.Args, mv, depth)
+}
+
+func (m *envModel) helperUseArgs(callee *ssa.Function, args []ssa.Value, mv ssa.Value, depth int) (what string, write bool, ok bool) {
 	kinds := map[string]bool{}
-	for i, a := range c.Call.Args {
+	for i, a := range args {
 		if a != mv || i >= len(callee.Params) {
 			continue
 		}
